@@ -271,6 +271,24 @@ class Built:
         return ReconciliationOutput(self.input, mapping)
 
 
+def primed(case, solve, **kw):
+    """History independence.  When the case carries another cost vector under "prime", the input object
+    is first built and solved with THOSE costs, then its cost dictionary is edited in place to the case's
+    own costs (the way the package's tests reuse an input); what the package remembers from the first
+    solve must not leak into the run that is observed."""
+    if not case.get("prime"):
+        return Built(case["S"], case["O"], case["costs"], **kw)
+    B = Built(case["S"], case["O"], case["prime"], **kw)
+    try:
+        solve(B.input)
+    except Exception:  # noqa: BLE001 - the priming run is not judged
+        pass
+    B.input.costs.clear()
+    B.input.costs.update(impl_costs(case["costs"]))
+    B.costs = case["costs"]
+    return B
+
+
 def ext_of(v):
     from infinity import inf
     if v == inf:
